@@ -3,6 +3,7 @@
 use crate::mac::*;
 use crate::macgen::*;
 use crate::macsuites::*;
+use crate::oracle::num_default_channels;
 use crate::util::*;
 
 pub fn eval(op: &str) -> String {
@@ -112,7 +113,62 @@ pub fn run(tier: &str, seed: u64, dir: &str) {
         }
     }
 
+    // dynamic plans: a re-join whose CFList names, at the same position, the frequency the previous
+    // session already had there (or another one) — after that session had re-paired the slot by
+    // DlChannelReq and / or narrowed its data-rate range by NewChannelReq. The channel of the new
+    // session is the one the JoinAccept defines: RX1 on its own frequency, range DR0..DR5.
+    for region in REGIONS {
+        if is_fixed(region) {
+            continue;
+        }
+        let (lo, _hi) = band(region);
+        let n0 = num_default_channels(region) as u8;
+        for k in 0..3usize {
+            for same in [true, false] {
+                let mut h = Hist::new("C11", region, 20, 0, 800 + (2 * k + same as usize) as u64, &[], None);
+                h.go_live();
+                let slot = n0 + k as u8;
+                let f = lo + 900_000 + 100_000 * k as u32;
+                let mut cf = [0u32; 5];
+                cf[k] = f;
+                let mut cf2 = cf;
+                if !same {
+                    cf2[k] = f + 100_000;
+                }
+                for (round, c) in [cf, cf2].into_iter().enumerate() {
+                    h.snap();
+                    h.ev("otaa");
+                    let devaddr = 0x0100_0000 + (rng.next() as u32 & 0xffffff);
+                    let root = h.root;
+                    let acc = build_join_accept(&root, devaddr, 0, 1, &CfDesc::Dynamic(c));
+                    h.rx_bytes(if (k + round) % 2 == 0 { "rx1" } else { "rx2" }, 5, &acc, None);
+                    h.devaddr = devaddr;
+                    h.last_down = None;
+                    h.snap();
+                    if round == 0 {
+                        h.send(1, false, &[1]);
+                        h.rx_auth("rx1", 0, 1, false, &dl_channel_req(slot, lo + 700_000), None, &[]).snap();
+                        if k % 2 == 1 {
+                            h.send(1, false, &[2]);
+                            h.rx_auth("rx2", 0, 1, false, &new_channel_req(slot, f, 0x20), None, &[]).snap();
+                        }
+                        h.send(1, false, &[3]).timeout().snap();
+                    } else {
+                        // uplinks on a plan reduced to that channel, so that RX1 is observed on it
+                        h.send(1, false, &[4]);
+                        h.rx_auth("rx1", 0, 1, false, &link_adr_req(15, 15, 1u16 << slot, 0, 1), None, &[]).snap();
+                        for _ in 0..3 {
+                            h.send(1, false, &[5]).timeout().snap();
+                        }
+                    }
+                }
+                let op = h.done();
+                sink.case(&op, &eval(&op), "rejoin-cflist-same-slot", true);
+            }
+        }
+    }
+
     // device level: both front-ends with the scripted radio (see adevgen::add_dev_classes)
     crate::adevgen::add_dev_classes("C11", &mut rng, &mut sink, thorough, eval);
-    sink.finish(dir, "per region: all 256 DLSettings bytes x RxDelay {0,1,2,15} x CFList {none, type 0 with in-band/zero/out-of-band frequencies, type 1 mask, RFU type}, arriving in RX1 or RX2 (full grid in thorough, a quarter in quick); joins with changing credential sets after failed and successful attempts; random histories of failed attempts, wrong-key accepts and re-joins from a joined state. The JoinRequest is checked against the §6.2.4 layout and its MIC, the session keys against the §6.2.5 derivation. Non-trivial = every case.", false, serde_json::json!({}));
+    sink.finish(dir, "per region: all 256 DLSettings bytes x RxDelay {0,1,2,15} x CFList {none, type 0 with in-band/zero/out-of-band frequencies, type 1 mask, RFU type}, arriving in RX1 or RX2 (full grid in thorough, a quarter in quick); joins with changing credential sets after failed and successful attempts; random histories of failed attempts, wrong-key accepts and re-joins from a joined state; re-joins whose CFList re-names a slot the previous session had re-paired (DlChannelReq) or narrowed (NewChannelReq): the new session's channel is the JoinAccept's. The JoinRequest is checked against the §6.2.4 layout and its MIC, the session keys against the §6.2.5 derivation. Non-trivial = every case.", false, serde_json::json!({}));
 }
